@@ -274,6 +274,24 @@ def check(fx, rep, tier):
                   '%s looks at every attribute and keeps those named `doc`' % n['name'],
                   '%s does not visit every attribute of the item (%s): doc lines that stand after another attribute (`/// a`, `#[serde(..)]`, `/// b`) are dropped from the description'
                   % (n['name'], ', '.join(partial) or 'early exit from the loop'))
+        # one comment per #[doc] attribute, text unchanged: the literal's value is pushed as it is - no splitting / filtering of its text (an empty doc line is
+        # a comment line too, `.lines()` of an empty string yields nothing)
+        vals = set()
+        for x in body_nodes:
+            if x.get('k') == 'let' and isinstance(x.get('init'), dict) and any(y.get('k') == 'mcall' and y.get('method') == 'value' for y in A.nodes(x['init'])):
+                vals.add((x.get('pat') or '').replace('mut ', '').strip())
+        RESHAPE = ('lines', 'split', 'splitn', 'rsplit', 'split_whitespace', 'split_terminator', 'split_once', 'chars', 'char_indices', 'bytes', 'filter', 'is_empty',
+                   'retain', 'strip_prefix', 'strip_suffix', 'trim_matches', 'trim_start_matches', 'trim_end_matches', 'replace', 'get', 'find', 'truncate', 'pop', 'len')
+        reshaped = []
+        for x in body_nodes:
+            if x.get('k') == 'mcall' and x.get('method') in RESHAPE:
+                rn = list(A.nodes(x.get('recv')))
+                if any(y.get('k') == 'mcall' and y.get('method') == 'value' for y in rn) or any(y.get('k') == 'path' and (y.get('text') or '').strip() in vals for y in rn):
+                    reshaped.append('%s() at line %s' % (x.get('method'), x.get('line')))
+        rep.check(not reshaped, 'R16.4', '%s|doc-text-unchanged' % n['name'], '%s:%s' % (fn, n.get('line')),
+                  '%s keeps the text of every doc attribute as one comment' % n['name'],
+                  '%s splits, filters or rewrites the text of a doc attribute (%s): a doc line can vanish or change on the way into the description (an empty `///` line '
+                  'is a comment line of its own)' % (n['name'], ', '.join(reshaped)))
     if not n4:
         rep.bad('R16.4', 'anchor', 'zlink-macros/src', 'no function collecting #[doc] attributes found')
     return META
